@@ -455,6 +455,40 @@ def length(ex, v, fr):
     raise Unsupported(f"len({v!r})")
 
 
+_HASH_FUNCS = {}
+
+
+def py_hash(ex, v):
+    """CPython's hash, as far as it is specified: hash(int) == int except hash(-1) == -2 (small ints); a tuple's hash is a
+    function of its elements' HASHES only; bool hashes as 0 / 1; str / float / None hashes are uninterpreted (no
+    injectivity is assumed anywhere)."""
+    if isinstance(v, VBool):
+        return z3.If(z_bool(v.v), z3.IntVal(1), z3.IntVal(0))
+    if isinstance(v, VInt):
+        t = z_int(v.v)
+        return z3.If(t == -1, z3.IntVal(-2), t)
+    if isinstance(v, VStr):
+        f = _HASH_FUNCS.setdefault("str", z3.Function("py_hash_str", z3.StringSort(), z3.IntSort()))
+        return f(z_str(v.v))
+    if isinstance(v, VFloat) and not is_fp(v.v):
+        f = _HASH_FUNCS.setdefault("float", z3.Function("py_hash_float", z3.RealSort(), z3.IntSort()))
+        return f(to_real(v))
+    if isinstance(v, VNone):
+        return z3.Int("py_hash_None")
+    if isinstance(v, VMaybe):
+        return z3.If(v.present, py_hash(ex, v.val), z3.Int("py_hash_None"))
+    if isinstance(v, VTuple):
+        hs = [py_hash(ex, x) for x in v.items]
+        f = _HASH_FUNCS.setdefault(("tuple", len(hs)), z3.Function(f"py_hash_tuple{len(hs)}", *([z3.IntSort()] * len(hs)), z3.IntSort()))
+        return f(*hs) if hs else z3.Int("py_hash_empty_tuple")
+    raise Unsupported(f"hash of {v!r}")
+
+
+@libfn("builtins.hash")
+def _hash(ex, args, kwargs, fr):
+    return VInt(py_hash(ex, args[0]))
+
+
 @libfn("builtins.len")
 def _len(ex, args, kwargs, fr):
     return length(ex, args[0], fr)
